@@ -71,7 +71,129 @@ pub const N_OBSERVERS: usize = 24;
 
 /// observer k panics inside the payload's comparison / hash / format impl: the panic propagates,
 /// counts are unchanged, and the values are destroyed exactly once when the handles go
+/// a formatter sink that fails (or panics) once `room` bytes have been taken
+struct Tight {
+    room: usize,
+    panics: bool,
+}
+struct SinkPanic;
+impl std::fmt::Write for Tight {
+    fn write_str(&mut self, s: &str) -> std::fmt::Result {
+        if s.len() > self.room {
+            self.room = 0;
+            if self.panics {
+                std::panic::panic_any(SinkPanic);
+            }
+            return Err(std::fmt::Error);
+        }
+        self.room -= s.len();
+        Ok(())
+    }
+}
+
+/// cases 49..: `{:?}` / `{}` / `{:p}` of every handle kind into a sink that fails at once, fails part-way or panics, and
+/// with a payload whose own impl returns an error: formatting has `&self` only, so whatever comes out, every count,
+/// value and block is as before
+fn run_sink(k: usize) -> Vec<String> {
+    use crate::payload::OBS_FMT_ERR;
+    use std::fmt::Write as _;
+    use std::sync::atomic::Ordering;
+    use triomphe::{ArcUnion, OffsetArc};
+    let mut errs = vec![];
+    alloc::reset();
+    ev::LOG.clear();
+    let kind = (k - 1) / 4;
+    let mode = (k - 1) % 4;
+    let names = ["Arc", "ThinArc", "OffsetArc", "ArcUnion (first)", "ArcUnion (second)", "ArcBorrow", "ArcUnionBorrow", "Arc<[T]> and the value behind a UniqueArc"];
+    let modes = ["a sink that fails at once", "a sink that fails part-way", "a payload impl that returns an error", "a sink that panics part-way"];
+    let tag = format!("formatting {} into {}", names[kind % names.len()], modes[mode]);
+    alloc::track(true);
+    let a1 = Arc::new(A::mk(1));
+    let a2 = a1.clone();
+    let t1: ThinArc<A, A> = ThinArc::from_header_and_iter(A::mk(2), vec![A::mk(3), A::mk(4)].into_iter());
+    let t2 = t1.clone();
+    let o1: OffsetArc<A> = Arc::into_raw_offset(Arc::new(A::mk(5)));
+    let o2 = o1.clone();
+    let u1: ArcUnion<A, A> = ArcUnion::from_first(Arc::new(A::mk(6)));
+    let u2: ArcUnion<u8, A> = ArcUnion::from_second(Arc::new(A::mk(7)));
+    let u1b = u1.clone();
+    let q = UniqueArc::new(A::mk(8));
+    let sole = Arc::new(A::mk(9));
+    let sl: Arc<[A]> = Arc::from(vec![A::mk(10), A::mk(11)]);
+    let mut sink = Tight { room: match mode { 0 => 0, 2 => 4096, _ => 3 }, panics: mode == 3 };
+    if mode == 2 {
+        OBS_FMT_ERR.store(true, Ordering::SeqCst);
+    }
+    let r = catch_unwind(AssertUnwindSafe(|| -> std::fmt::Result {
+        match kind {
+            0 => {
+                let r1 = write!(sink, "{:?}", a1);
+                let r2 = write!(sink, "{}", a1);
+                let r3 = write!(sink, "{:p}{:?}{}", sole, sole, sole);
+                r1.and(r2).and(r3)
+            }
+            1 => write!(sink, "{:?}", t1).and(write!(sink, "{:p}", t1)),
+            2 => write!(sink, "{:?}", o1),
+            3 => write!(sink, "{:?}", u1),
+            4 => write!(sink, "{:?}", u2),
+            5 => write!(sink, "{:?}", a1.borrow_arc()).and(write!(sink, "{:?}", sole.borrow_arc())),
+            6 => write!(sink, "{:?}", u1.borrow()).and(write!(sink, "{:?}", u2.borrow())),
+            _ => write!(sink, "{:?}", &*q).and(write!(sink, "{:?}", sl)),
+        }
+    }));
+    OBS_FMT_ERR.store(false, Ordering::SeqCst);
+    alloc::track(false);
+    match &r {
+        Err(p) if mode == 3 && p.is::<SinkPanic>() => {}
+        Err(_) => errs.push(format!("[panicked] {}: the call panicked", tag)),
+        Ok(_) => {}
+    }
+    drop(r);
+    let counts = [Arc::count(&a1), ThinArc::strong_count(&t1), OffsetArc::strong_count(&o1), ArcUnion::strong_count(&u1), ArcUnion::strong_count(&u2), Arc::count(&sole), Arc::count(&sl)];
+    if counts != [2, 2, 2, 2, 1, 1, 1] {
+        errs.push(format!("[count] {}: counts afterwards are {:?}, the handles alive say [2, 2, 2, 2, 1, 1, 1]: formatting never changes a count", tag, counts));
+    }
+    let ok = a1.see().ok && a2.see().ok && t1.header.header.see().ok && t2.slice.iter().all(|e| e.see().ok) && o1.see().ok && o2.see().ok
+        && u1.as_first().map(|b| b.see().ok).unwrap_or(false) && u2.as_second().map(|b| b.see().ok).unwrap_or(false) && q.see().ok && sole.see().ok && sl.iter().all(|e| e.see().ok);
+    if !ok {
+        errs.push(format!("[poison] {}: a value is no longer intact afterwards", tag));
+    }
+    for e in ev::drain() {
+        match e {
+            Ev::Drop { .. } => errs.push(format!("[drops] {}: a value was destroyed while every handle is alive", tag)),
+            Ev::BadDrop { .. } => errs.push(format!("[baddrop] {}: destructor ran on something that is not a live object", tag)),
+            _ => {}
+        }
+    }
+    alloc::track(true);
+    drop((a1, a2, t1, t2, o1, o2, u1, u1b, u2, q, sole, sl));
+    alloc::track(false);
+    let mut drops = 0;
+    for e in ev::drain() {
+        match e {
+            Ev::Drop { .. } => drops += 1,
+            Ev::BadDrop { .. } => errs.push(format!("[baddrop] {}: destructor ran on something that is not a live object", tag)),
+            _ => {}
+        }
+    }
+    if drops != 11 {
+        errs.push(format!("[drops] {}: {} destructor runs for 11 values once every handle is gone", tag, drops));
+    }
+    let t = alloc::table();
+    if t.iter().any(|r| r.live && r.size < 200) {
+        errs.push(format!("[leak] {}: a block is still allocated after every handle is gone", tag));
+    }
+    if t.iter().any(|r| r.frees > 1) {
+        errs.push(format!("[frees] {}: a block was returned more than once", tag));
+    }
+    alloc::reset();
+    errs
+}
+
 fn run_observer(k: usize) -> Vec<String> {
+    if k > 48 {
+        return run_sink(k - 48);
+    }
     use crate::payload::{ObsPanic, OBS_PANIC};
     use std::fmt::Write as _;
     use std::hash::{Hash, Hasher};
